@@ -131,36 +131,22 @@ theorem good_canonAtSlot (pr : PA) (h : WF pr) (anchor : Root) (slot : Nat) (wb 
         | panic => rw [hf] at hg; exact hg.elim
         | spin => rw [hf] at hg; exact hg.elim
 
-theorem searchLoop_done (q : PA) (h : WF q) (ai hi : Nat) (head : NodeRef) (pR : Option Root) (sl : Option Nat) :
+theorem searchLoop_done (q : PA) (h : WF q) (ai hi : Nat) (head : NodeRef) (pR : Option Root) (sl : Option Nat)
+    (hcb : List Root) :
     ∀ (l : List Node) (nc c : List NodeRef), (∀ n ∈ l, ∃ i : Nat, q.nodes[i]? = some n) →
-      ∃ nc' c', q.searchLoop ai hi head pR sl l nc c = .done nc' c' := by
+      ∃ nc' c', q.searchLoop ai hi head pR sl hcb l nc c = .done nc' c' := by
   intro l
   induction l with
   | nil => intro nc c _; exact ⟨nc, c, rfl⟩
   | cons node rest ih =>
     intro nc c hmem
-    have ihr : ∀ nc c, ∃ nc' c', q.searchLoop ai hi head pR sl rest nc c = .done nc' c' :=
+    have ihr : ∀ nc c, ∃ nc' c', q.searchLoop ai hi head pR sl hcb rest nc c = .done nc' c' :=
       fun nc c => ih nc c (fun n hn => hmem n (List.mem_cons_of_mem _ hn))
-    obtain ⟨i, hnode⟩ := hmem node (List.mem_cons_self ..)
     unfold PA.searchLoop
     simp only
     split
     · exact ihr nc c
     · split
-      · -- the filter never indexes out of range
-        rename_i heq
-        exfalso
-        split at heq
-        · split at heq
-          · rename_i hbc
-            have hbd := (h.bc_bd i node hnode).mp hbc
-            cases hd : node.bestDesc with
-            | none => rw [hd] at hbd; exact absurd hbd (by simp)
-            | some d =>
-              have hlt := (h.bd_desc i node d hnode hd).1
-              simp [hd, List.getElem?_eq_getElem hlt] at heq
-          · simp at heq
-        · simp at heq
       · exact ihr nc c
       · rw [inSubtreeSpins_false q h]
         simp only [Bool.false_eq_true, if_false]
@@ -182,7 +168,7 @@ theorem good_search (pr : PA) (h : WF pr) (anchor : NodeRef) (pR : Option Root) 
   cases hf : pr.findHead anchor.root anchor.slot with
   | ok s a =>
     rw [hf] at hg; simp only
-    obtain ⟨nc', c', e⟩ := searchLoop_done s hg.1 ((aGet s.indices anchor).getD 0) ((aGet s.indices a).getD 0) a pR sl
+    obtain ⟨nc', c', e⟩ := searchLoop_done s hg.1 ((aGet s.indices anchor).getD 0) ((aGet s.indices a).getD 0) a pR sl _
       s.nodes [] [] (fun n hn => by
         obtain ⟨i, hi, e⟩ := List.mem_iff_getElem.mp hn
         exact ⟨i, by rw [List.getElem?_eq_getElem hi, e]⟩)
